@@ -54,7 +54,7 @@ BlockInsert(w, k, kl, vl, v8, vm) ==
 BlockOf(w, off) ==
     [off |-> off, stored |-> SizeOf(w), usize |-> SizeOf(w), payload |-> w.payload,
      table |-> w.table, count |-> Len(w.table), keys |-> w.keys, v8 |-> w.v8, vm |-> w.vm,
-     eoffs |-> w.eoffs, esz |-> w.esz, junk |-> 0]
+     eoffs |-> w.eoffs, esz |-> w.esz, junk |-> 0, raw |-> <<>>]
 
 VARIABLES
     bw,        \* the data block under construction
